@@ -405,6 +405,24 @@ func c19(c *core.Ctx) {
 		c.Analysed(fname(f))
 		saves := fieldCalls(f, "plugin/auth.Auth.saveFile")
 		c.Check(len(saves) >= 1, "C19.R5", "auth|"+m+"|persists", fpos(c, f), "account change is persisted", m+" changes the account table without saving the password file")
+		// what is saved is the table after the change: the change of the account table precedes the save
+		mut := map[string]string{"Update": "Set", "Delete": "Remove"}[m]
+		var muts []ssax.CallSite
+		for _, cs := range ssax.Calls(f, false, func(ce ssax.Callee) bool { return ce.Func != nil && ce.Func.Name() == mut && strings.Contains(ce.Name, "Indexer") }) {
+			muts = append(muts, cs)
+		}
+		for i, sv := range saves {
+			if sv.Fn != f {
+				continue
+			}
+			before := false
+			for _, mu := range muts {
+				if mu.Fn == f && ssax.Dominates(mu.Instr, sv.Instr) {
+					before = true
+				}
+			}
+			c.Check(before, "C19.R5", fmt.Sprintf("auth|%s|saved-after-change#%d", m, i), ipos(c, sv.Instr), "the table is changed before it is saved", m+" saves the password file before applying the change to the account table: the file still holds the old account, which comes back after a restart")
+		}
 	}
 }
 
